@@ -32,10 +32,18 @@ The third clause — each tree vertex labelled with its least cost — is claime
 access model), `config_tree_reachable_least_cost`; `tree_is_reachable_set_on` is its instance-level
 form (`UniformCostOn`: premises only on the calls the search makes).
 
-Not here: that a run *ends* — every theorem is of the form "if the run returned …"; in particular
+The reachability theorems of the first sections are of the form "if the run returned …": there
 "reachable ⇒ a route is returned" holds among the outcomes result / "no path" (the premise `hres`),
 which excludes the explicit termination and the failing calls listed in
-`config_run_result_or_benign`, and the model's two schedule-replay errors.
+`config_run_result_or_benign`, and the model's two schedule-replay errors.  That a run *ends*, and ends
+in one of these two outcomes, is the last section ("The search ends, and ends with the right
+answer"): `dijkstra_decides_reachability`, `search_decides_reachability`, `tree_search_returns` — on
+well-formed distance configurations (`Config.WellFormedDistance`: distance traversal model, no access
+model, no turn restrictions, every vertex in range) whose limits do not fire within the bounds the
+termination proofs give (a configured limit that is large enough is inside the premise) — and, with
+any access model, `dijkstra_with_access_model_ends_and_decides` (the end may then be a component error
+or a termination).  Not proved: that the pops the implementation makes form an accepted schedule
+(evidenced by the correspondence run, which replays them).
 
 Outside every theorem (ordered fields have no +∞, NaN or overflow), tied by the correspondence run
 only, oracles silent: a tentative cost of +∞ (1e308 m at weight 10) or NaN never improves on a
@@ -404,15 +412,22 @@ The theorems above start from a run that ended in a result or in "no path".  Tha
 brought to such an end — the loop is never stuck, and under the Dijkstra discipline ends within
 |V| + 1 pops — is `Proofs/SearchTermination.lean`; these are its C05-facing forms. -/
 
-/-- **a deciding run exists, and every run can be completed to one** (Dijkstra, distance model,
-no limit configured): on a well-formed configuration over the vertices `< n` there is a schedule of
-at most `n + 1` pops on which the search returns a route or "no path" — a route exactly when the
-destination is reachable through permitted edges —, and every accepted, unfinished schedule (whatever
-ties the implementation broke so far) has at most `n` pops and extends to such a one.  So "reachable
-⇒ a route is returned, unreachable ⇒ no path" holds without assuming how the run ended. -/
+/-- **a deciding run exists, and every run can be completed to one** (Dijkstra;
+`Config.WellFormedDistance`: distance traversal model, no access model, no turn restrictions, every
+vertex in the coordinate range; limits large enough for the network): on a well-formed
+configuration over the vertices `< n` whose termination model does not fire within `n` iterations
+and `n · D` tree entries (`D` a bound on the number of incident edges of a vertex — the most a run
+can reach, so a configured iterations / solution-size / runtime limit above that is inside the
+premise; the empty combined model trivially) there is a schedule of at most `n + 1` pops on which the
+search returns a route or "no path" — a route exactly when the destination is reachable through
+permitted edges —, and every accepted, unfinished schedule (whatever ties the implementation broke
+so far) has at most `n` pops and extends to such a one.  So "reachable ⇒ a route is returned,
+unreachable ⇒ no path" holds without assuming how the run ended.  (Until the second review the
+premise was `∀ sz it, c.term.test sz it = .ok ()`, met by the empty combined model only.) -/
 theorem dijkstra_decides_reachability (c : Config α) {du : DistanceUnit}
     (W : c.WellFormedDistance du) {source t : Nat} (G : c.GraphOK source true)
-    (hwf : c.wf = some 0) (hlim : ∀ sz it, c.term.test sz it = .ok ()) {n : Nat}
+    (hwf : c.wf = some 0) {n D : Nat} (hD : ∀ v, (c.inst.incident v).length ≤ D)
+    (hlim : ∀ sz it, it ≤ n → sz ≤ n * D → c.term.test sz it = .ok ())
     (hsrc : source < n) (hV : c.VerticesBelow n) :
     (∃ sched, sched.length ≤ n + 1 ∧
       ((∃ r, c.runVertex source (some t) sched = .ok r) ∨
@@ -425,16 +440,21 @@ theorem dijkstra_decides_reachability (c : Config α) {du : DistanceUnit}
           c.runVertex source (some t) (pre ++ ext) = .error .noPath) ∧
         ((∃ r, c.runVertex source (some t) (pre ++ ext) = .ok r) ↔
           ∃ es, Walk c.inst c.okOf source es t) :=
-  SearchTermination.config_dijkstra_decides c W G hwf hlim hsrc hV
+  SearchTermination.config_dijkstra_decides c W G hwf hD hlim hsrc hV
 
-/-- the same for **any weight factor** (A* with re-opening included): a deciding schedule exists and
-every accepted unfinished schedule extends to one; the bound is the number of walks of fewer than `n`
-edges from the source (finite, exponential: it proves that the search ends, not that it ends soon —
-the iteration limit of C10 is the practical bound there) -/
+/-- the same for **any weight factor** (A* with re-opening included; well-formed distance
+configuration as above): a deciding schedule exists and every accepted unfinished schedule extends
+to one; the bound `N = |walks| + 1` on the expansions is the number of walks of fewer than `n` edges
+from the source (finite, exponential: it proves that the search ends, not that it ends soon — the
+iteration limit of C10 is the practical bound there), and the termination model must not fire within
+`N` iterations and `N · D` tree entries -/
 theorem search_decides_reachability (c : Config α) {du : DistanceUnit}
-    (W : c.WellFormedDistance du) {source t : Nat} (G : c.GraphOK source true)
-    (hlim : ∀ sz it, c.term.test sz it = .ok ()) {n : Nat} (hsrc : source < n)
-    (hV : c.VerticesBelow n) :
+    (W : c.WellFormedDistance du) {source t : Nat} (G : c.GraphOK source true) {n D : Nat}
+    (hD : ∀ v, (c.inst.incident v).length ≤ D)
+    (hlim : ∀ sz it, it ≤ (SearchTermination.walks c.inst source n).length + 1 →
+      sz ≤ ((SearchTermination.walks c.inst source n).length + 1) * D →
+      c.term.test sz it = .ok ())
+    (hsrc : source < n) (hV : c.VerticesBelow n) :
     (∃ sched, sched.length ≤ (SearchTermination.walks c.inst source n).length + 2 ∧
       ((∃ r, c.runVertex source (some t) sched = .ok r) ∨
         c.runVertex source (some t) sched = .error .noPath) ∧
@@ -447,7 +467,7 @@ theorem search_decides_reachability (c : Config α) {du : DistanceUnit}
           c.runVertex source (some t) (pre ++ ext) = .error .noPath) ∧
         ((∃ r, c.runVertex source (some t) (pre ++ ext) = .ok r) ↔
           ∃ es, Walk c.inst c.okOf source es t) :=
-  SearchTermination.config_search_decides c W G hlim hsrc hV
+  SearchTermination.config_search_decides c W G hD hlim hsrc hV
 
 /-- **with any access model** (turn delays included; a failing lookup fails the run, so the end may be
 a component error): under the Dijkstra discipline a schedule of at most `n + 1` pops ends the run,
@@ -468,21 +488,68 @@ theorem dijkstra_with_access_model_ends_and_decides (c : Config α) (h : c.Restr
         ¬ ∃ es, Walk c.inst c.okOf source es t) :=
   SearchTermination.config_restrictionLocal_dijkstra_decides c h hwf hsrc hV t
 
-/-- a destination-less search returns its tree: a schedule of at most `n + 1` pops returns, and
+/-- a destination-less search returns its tree (well-formed distance configuration, limits silent
+within `n` iterations and `n · D` tree entries): a schedule of at most `n + 1` pops returns, and
 every accepted unfinished schedule extends to one that returns (with `config_tree_reachable`: the
 tree it returns is the reachable set) -/
 theorem tree_search_returns (c : Config α) {du : DistanceUnit} (W : c.WellFormedDistance du)
-    {source : Nat} (G : c.GraphOK source false) (hlim : ∀ sz it, c.term.test sz it = .ok ())
-    {n : Nat} (hsrc : source < n) (hV : c.VerticesBelow n) :
+    {source : Nat} (G : c.GraphOK source false) {n D : Nat}
+    (hD : ∀ v, (c.inst.incident v).length ≤ D)
+    (hlim : ∀ sz it, it ≤ n → sz ≤ n * D → c.term.test sz it = .ok ())
+    (hsrc : source < n) (hV : c.VerticesBelow n) :
     (∃ sched r, sched.length ≤ n + 1 ∧ c.runVertex source none sched = .ok r) ∧
     ∀ pre, c.runVertex source none pre = .error .scheduleExhausted →
       pre.length ≤ n ∧ ∃ ext r, (pre ++ ext).length ≤ n + 1 ∧
         c.runVertex source none (pre ++ ext) = .ok r :=
-  SearchTermination.config_tree_search_returns c W G hlim hsrc hV
+  SearchTermination.config_tree_search_returns c W G hD hlim hsrc hV
 
-/-- non-vacuity: the example configuration of `Proofs/ConfigUniform.lean` without any limit is well
-formed over 5 vertices; the theorem applies to it, and since vertex 3 is reachable from 0 (walk
-`[0, 7]`) the deciding schedule it gives returns a route -/
+/-- no vertex of `exC` has more than three incident edges (whatever the termination model) -/
+theorem exC_degree (m : TermM) (v : Nat) :
+    (({ ConfigUniform.Example.exC with term := m } : Config ℚ).inst.incident v).length ≤ 3 := by
+  match v with
+  | 0 | 1 | 2 | 3 => simp [Config.inst, ConfigUniform.Example.exC]
+  | n + 4 => simp [Config.inst, ConfigUniform.Example.exC]
+
+/-- a REAL limit inside the premise: an iterations limit of 1000 beside a solution-size limit of
+1000 does not fire within 5 iterations and 15 tree entries -/
+theorem real_limits_silent (sz it : Nat) (hit : it ≤ 5) (hsz : sz ≤ 5 * 3) :
+    (TermM.combined [.iters 1000, .size 1000]).test sz it = .ok () := by
+  rw [SearchLimits.test_ok_iff]
+  have h1 : ¬ (it + 1 > 1000) := by omega
+  have h2 : ¬ (sz > 1000) := by omega
+  simp [TermM.fires, TermM.fires.firesList, h1, h2]
+
+/-- non-vacuity with **configured limits**: the example configuration of `Proofs/ConfigUniform.lean`
+(5 vertices, at most 3 incident edges) under an iterations limit of 1000 and a solution-size limit of
+1000 is well formed; the theorem applies to it, and since vertex 3 is reachable from 0 (walk
+`[0, 7]`) the deciding schedule it gives returns a route; the destination-less search returns too -/
+example : (∃ sched r, sched.length ≤ 6 ∧
+    ({ ConfigUniform.Example.exC with term := .combined [.iters 1000, .size 1000] } :
+      Config ℚ).runVertex 0 (some 3) sched = .ok r) ∧
+    ∃ sched r, sched.length ≤ 6 ∧
+    ({ ConfigUniform.Example.exC with term := .combined [.iters 1000, .size 1000] } :
+      Config ℚ).runVertex 0 none sched = .ok r := by
+  let c : Config ℚ :=
+    { ConfigUniform.Example.exC with term := .combined [.iters 1000, .size 1000] }
+  have W : c.WellFormedDistance .meters :=
+    ⟨ConfigUniform.Example.exC_wellFormed.trav, ConfigUniform.Example.exC_wellFormed.noAccess,
+      ConfigUniform.Example.exC_wellFormed.noTurn, ConfigUniform.Example.exC_wellFormed.slot,
+      ConfigUniform.Example.exC_wellFormed.cost_range,
+      ConfigUniform.Example.exC_wellFormed.frontier_total,
+      ConfigUniform.Example.exC_wellFormed.gc_nonneg⟩
+  have G0 := ConfigUniform.Example.exC_graphOK 0 (by decide) true
+  have G : c.GraphOK 0 true := ⟨G0.adj, G0.inc_range, G0.gc_source, G0.gc_range⟩
+  have G1 := ConfigUniform.Example.exC_graphOK 0 (by decide) false
+  have G' : c.GraphOK 0 false := ⟨G1.adj, G1.inc_range, G1.gc_source, G1.gc_range⟩
+  obtain ⟨⟨sched, hlen, _, hiff⟩, _⟩ := dijkstra_decides_reachability c W (source := 0) (t := 3) G rfl
+    (exC_degree _) real_limits_silent (n := 5) (by decide) (by decide)
+  have hw : Walk c.inst c.okOf 0 [0, 7] 3 := by simp only [Walk]; decide +kernel
+  obtain ⟨r, hr⟩ := hiff.2 ⟨[0, 7], hw⟩
+  obtain ⟨⟨sched', r', hlen', hr'⟩, _⟩ := tree_search_returns c W (source := 0) G'
+    (exC_degree _) real_limits_silent (n := 5) (by decide) (by decide)
+  exact ⟨⟨sched, r, hlen, hr⟩, sched', r', hlen', hr'⟩
+
+/-- the empty combined model (no limit configured) is inside the premise as before -/
 example : ∃ sched r, sched.length ≤ 6 ∧
     ({ ConfigUniform.Example.exC with term := .combined [] } : Config ℚ).runVertex 0 (some 3) sched
       = .ok r := by
@@ -496,7 +563,8 @@ example : ∃ sched r, sched.length ≤ 6 ∧
   have G0 := ConfigUniform.Example.exC_graphOK 0 (by decide) true
   have G : c.GraphOK 0 true := ⟨G0.adj, G0.inc_range, G0.gc_source, G0.gc_range⟩
   obtain ⟨⟨sched, hlen, _, hiff⟩, _⟩ := dijkstra_decides_reachability c W (source := 0) (t := 3) G rfl
-    (fun sz it => SearchLimits.combined_nil_test sz it) (n := 5) (by decide) (by decide)
+    (exC_degree _) (fun sz it _ _ => SearchLimits.combined_nil_test sz it) (n := 5) (by decide)
+    (by decide)
   have hw : Walk c.inst c.okOf 0 [0, 7] 3 := by simp only [Walk]; decide +kernel
   obtain ⟨r, hr⟩ := hiff.2 ⟨[0, 7], hw⟩
   exact ⟨sched, r, hlen, hr⟩
